@@ -11,12 +11,15 @@ Is(e) == l <= Len(Trace) /\ Trace[l].e = e
 Adv == l' = l + 1 /\ UNCHANGED gbvars
 ToSet(s) == {s[i] : i \in DOMAIN s}
 TGenerate == Is("Generate") /\ Ev.gombok /\ Ev.build /\ Ev.vet /\ Ev.driver /\ Ev.deterministic /\ Adv
-FieldOK(f) ==
-  /\ f.vis = "private" => (f.getter /\ f.getterok /\ f.with /\ f.withok /\ f.bset)
-  /\ (f.vis = "private" /\ f.opt) => (f.withsome /\ f.withnone /\ f.bsome /\ f.bnone)
+FieldOK(f, anns) ==
+  /\ (f.vis = "private" /\ NeedGetter(anns)) => (f.getter /\ f.getterok)
+  /\ (f.vis = "private" /\ NeedWith(anns)) => (f.with /\ f.withok)
+  /\ (f.vis = "private" /\ NeedBuilder(anns)) => f.bset
+  /\ (f.vis = "private" /\ f.opt /\ NeedWith(anns)) => (f.withsome /\ f.withnone)
+  /\ (f.vis = "private" /\ f.opt /\ NeedBuilder(anns)) => (f.bsome /\ f.bnone)
 TStruct == /\ Is("Struct") /\ Adv
-           /\ Required(Ev.fields, Ev.labelled, Ev.json) \subseteq ToSet(Ev.has)
-           /\ \A i \in DOMAIN Ev.fields : FieldOK(Ev.fields[i])
+           /\ Required(Ev.fields, ToSet(Ev.anns), Ev.labelled, Ev.json) \subseteq ToSet(Ev.has)
+           /\ \A i \in DOMAIN Ev.fields : FieldOK(Ev.fields[i], ToSet(Ev.anns))
            /\ Ev.law.builder /\ Ev.law.tuple /\ Ev.law.unapply /\ Ev.law.map /\ Ev.law.mutable /\ Ev.law.labelled /\ Ev.law.string
            /\ Ev.panics = <<>>
 TDetail == Is("JsonDetail") /\ Adv
